@@ -54,6 +54,8 @@ def teardown_worker():
 def strategy(tier):
     fsop = st.one_of(
         st.fixed_dictionaries({"op": st.just("add"), "name": st.sampled_from(NAMES), "size": st.sampled_from([0, 1, 5000, 16384, 20000, 40000]), "seed": st.integers(0, 99)}),
+        # a sparse 17 MB file moves the payload across the first automatic piece-length threshold (1000 * 16 KiB)
+        st.fixed_dictionaries({"op": st.just("add"), "name": st.just("big.bin"), "size": st.just(17000000), "seed": st.just(0), "sparse": st.just(True)}),
         st.fixed_dictionaries({"op": st.just("delete"), "k": st.integers(0, 9)}),
         st.fixed_dictionaries({"op": st.just("resize"), "k": st.integers(0, 9), "size": st.sampled_from([0, 1, 777, 16384, 16385, 33000])}),
         st.fixed_dictionaries({"op": st.just("rewrite"), "k": st.integers(0, 9), "seed": st.integers(100, 199)}),
@@ -61,7 +63,8 @@ def strategy(tier):
     )
     tfop = st.one_of(
         st.fixed_dictionaries({"op": st.just("create"), "ver": st.sampled_from(["1", "2", "3"]), "route": st.sampled_from(["lib", "cli"]),
-                               "target": st.sampled_from(["dir", "dir", "dir", "file"]), "k": st.integers(0, 9)}),
+                               "target": st.sampled_from(["dir", "dir", "dir", "file"]), "k": st.integers(0, 9),
+                               "auto": st.sampled_from([False, False, True])}),
         st.fixed_dictionaries({"op": st.just("create"), "ver": st.sampled_from(["1", "2", "3"]), "route": st.sampled_from(["lib", "cli"]),
                                "target": st.just("dir"), "k": st.just(0)}),
         st.fixed_dictionaries({"op": st.just("recheck"), "m": st.integers(0, 9), "content": st.sampled_from(["root", "parent"])}),
@@ -97,9 +100,11 @@ def perform(req):
             out = req["out"]
             if req["route"] == "lib":
                 creator = {"1": "TorrentFile", "2": "Assembler2", "3": "Assembler3"}[req["ver"]]
-                target.create_lib(creator, req["path"], out, piece_length=16384)
+                kw = {} if req.get("auto") else {"piece_length": 16384}
+                target.create_lib(creator, req["path"], out, **kw)
             else:
-                target.execute(["create", "--meta-version", req["ver"], "-o", out, "--prog", "0", "--piece-length", "14", req["path"]])
+                pl = [] if req.get("auto") else ["--piece-length", "14"]
+                target.execute(["create", "--meta-version", req["ver"], "-o", out, "--prog", "0"] + pl + [req["path"]])
             return _meta_obs(out)
         if op == "recheck":
             return {"percent": repr(target.recheck_pct(req["metafile"], req["content"]))}
@@ -140,11 +145,14 @@ def run_case(case):
         files = []
         origin = {}
 
-        def write(name, size, seed):
+        def write(name, size, seed, sparse=False):
             p = os.path.join(pay, name)
             os.makedirs(os.path.dirname(p), exist_ok=True)
             with open(p, "wb") as fd:
-                fd.write(sandbox.content("nz", seed, size))
+                if sparse:
+                    fd.truncate(size)
+                else:
+                    fd.write(sandbox.content("nz", seed, size))
             if name not in files:
                 files.append(name)
                 origin[name] = (size, seed)
@@ -164,7 +172,7 @@ def run_case(case):
                     # do not create a file where a directory is needed or vice versa
                     if any(f.startswith(step["name"] + "/") for f in files) or any(step["name"].startswith(f + "/") for f in files):
                         continue
-                    write(step["name"], step["size"], step["seed"])
+                    write(step["name"], step["size"], step["seed"], step.get("sparse", False))
                     name = step["name"]
                 elif not files:
                     continue
@@ -185,7 +193,10 @@ def run_case(case):
                     elif op == "restore":
                         # back to the content the file had when it was first written (e.g. a download that completes)
                         with open(p, "wb") as fd:
-                            fd.write(sandbox.content("nz", origin[name][1], origin[name][0]))
+                            if origin[name][0] > 1000000:
+                                fd.truncate(origin[name][0])
+                            else:
+                                fd.write(sandbox.content("nz", origin[name][1], origin[name][0]))
                     else:
                         size = os.path.getsize(p)
                         with open(p, "wb") as fd:
@@ -202,7 +213,7 @@ def run_case(case):
                     tpath = os.path.join(pay, files[step["k"] % len(files)])
                 else:
                     tpath = pay
-                req.update({"ver": step["ver"], "route": step["route"], "path": tpath})
+                req.update({"ver": step["ver"], "route": step["route"], "path": tpath, "auto": step.get("auto", False)})
                 key = tpath
             else:
                 if not metas:
